@@ -11,7 +11,7 @@ use neurons::objective::Function;
 pub fn meta(_ctx: &Ctx) -> Meta {
     Meta {
         rule: "7 objectives x clamps {none,(-0.2,0.2),(-1,1),(0,0.5),(0.3,0.3),(-inf,0.2),(-0.2,inf),(-inf,inf)} x ranks {vector n<=3; 1x1xn, nx1x1, 1xnx1; 2x2x2; vectors of 9, 10, 17, 40, 100 and tensors 1x3x3, 3x3x3, 2x4x5 with every rotation of the pair list} x ALL tuples of (prediction,target) pairs over the in-domain alphabets incl. boundaries: regression {-2,-0.5,0,0.5,1,3}^2, probabilistic predictions {0,1e-7,1e-6,0.25,0.5,1-1e-6,1} x targets {0,0.25,0.5,1}. Oracles: documented loss/gradient formulas (f64), gradient shape = prediction shape, clamped gradient = clamp(unclamped) bit-exact, CxHxW result = vector result bit-exact, dual-number derivative of the reference loss for AE/MSE/BCE/KL away from kinks and the eps-clamp, loss finite. Non-trivial = tuple with >=2 distinct pairs or a boundary value".into(),
-        bound: "n <= 3 complete; 2x2x2 with all 36 / 28 rotations of the pair list".into(),
+        bound: "tuples of n <= 3 pairs complete (thorough: n <= 4 on vectors); 2x2x2 and the larger shapes with all 36 / 28 rotations of the pair list".into(),
         exhaustive: true,
         assumptions: vec![
             "RMSE gradient read as -(a-p)/(sqrt((a-p)^2)*n), the grouping the documentation's formula leaves open".into(),
@@ -203,11 +203,11 @@ pub fn check(case: &Kv, rep: &mut Report) {
     }
 }
 
-pub fn cases() -> Vec<Kv> {
+pub fn cases(thorough: bool) -> Vec<Kv> {
     let mut out = Vec::new();
     for o in OBJ7 {
         let m = pairs(o).len();
-        for n in 1..=3usize {
+        for n in 1..=(if thorough { 4usize } else { 3usize }) {
             let total = m.pow(n as u32);
             for code in 0..total {
                 let mut c = code;
@@ -218,7 +218,7 @@ pub fn cases() -> Vec<Kv> {
                 }
                 let list = idx.join(",");
                 out.push(Kv::new().put("obj", o.name()).put("shape", "vec").put("pairs", &list));
-                {
+                if n <= 3 {
                     for s in ["1x1xn", "nx1x1", "1xnx1"] {
                         out.push(Kv::new().put("obj", o.name()).put("shape", s).put("pairs", &list));
                     }
@@ -240,8 +240,8 @@ pub fn cases() -> Vec<Kv> {
     out
 }
 
-pub fn run(_ctx: &Ctx) -> Report {
-    let cs = cases();
+pub fn run(ctx: &Ctx) -> Report {
+    let cs = cases(ctx.tier.thorough());
     let chunks: Vec<&[Kv]> = cs.chunks(2048).collect();
     let parts = par_map(&chunks, |_, c| {
         let mut r = Report::new();
